@@ -107,8 +107,8 @@ PROPS = {
     "C13": {
         "engines": [{"name": "memo", "quick": 3000, "thorough": 120000, "shards": 8,
                      "alt_build": {"tags": "verif coraza.no_memoize", "outname": "corr.nomemo", "env": "VERIF_NOMEMO_BIN"}},
-                    {"name": "tfwrap", "quick": 1, "thorough": 1}],
-        "nontrivial": lambda l, v: l.startswith("tfwrap ") or "1" in l.split(" => ")[1].split(" keys=")[0],
+                    {"name": "tfwrap", "quick": 1, "thorough": 1}, {"name": "twolog", "quick": 60, "thorough": 1500, "shards": 4}],
+        "nontrivial": lambda l, v: l.startswith("tfwrap ") or l.startswith("twolog ") or "1" in l.split(" => ")[1].split(" keys=")[0],
         "rule": "memo: 2-4 configurations drawn from 9 roles (@pm phrase list, regex key, data set with two (or blank-vs-newline) contents under "
                 "one name, @pmFromFile with such contents under one file name in different root file systems, @validateSchema with two schemas under one file name, @restpath, @rx "
                 "with and without prefilter, ctl regex key, SecAuditLogRelevantStatus) over only two strings per case, so the "
@@ -275,7 +275,8 @@ PROPS = {
     },
     "C20": {
         "engines": [{"name": "fault", "script": "tools/faults.py", "quick": 1, "thorough": 1},
-                    {"name": "decode", "quick": 9000, "thorough": 400000, "shards": 8, "arg": "bodyerr"}],
+                    {"name": "decode", "quick": 9000, "thorough": 400000, "shards": 8, "arg": "bodyerr"},
+                    {"name": "rderr", "quick": 3000, "thorough": 100000, "shards": 4}],
         "nontrivial": lambda l, v: " none 0 " not in l and " err=0" not in l,
         "rule": "fault (strace fault injection, one failure per run, placement verified in the strace log): scripted "
                 "transactions — `spill` (request body 3 writes crossing SecRequestBodyInMemoryLimit so the buffer spills to a "
